@@ -962,9 +962,10 @@ func intrSyncMapUnsupported(c *icall) {
 	unsupported(c.curPos(), "sync.Map method %s (not modelled)", c.fn.Name())
 }
 
-// ---- sync.Pool (model: a LIFO list kept in the struct's `local` field; Get either reuses the
-// most recently put item or - a second alternative explored by the engine - behaves as if the
-// pool had been emptied by the collector: New() or nil) ----
+// ---- sync.Pool (model: a LIFO list kept in the struct's `local` field; Get reuses the most
+// recently put item if there is one - the behaviour that exposes what pooled objects carry
+// over - and calls New (or yields nil) otherwise. The real pool may also drop items at any
+// time; that alternative, which equals "no pooling", is not explored: stated bound.) ----
 
 const (
 	syncPoolLocalField = 1 // sync.Pool{noCopy, local, localSize, victim, victimSize, New}
@@ -1014,11 +1015,7 @@ func intrSyncPoolGet(c *icall) {
 		c.st.race.onAcquire(c.g, keyOf(p))
 	}
 	fp, items := syncPoolItems(c, p)
-	reuse := false
 	if len(items) > 0 {
-		reuse = c.e.decide(c.w, c.st, "pool", c.e.posStr(c.curPos()), []*Term{TrueT, TrueT}) == 0
-	}
-	if reuse {
 		ip := c.st.load(fp).(Ptr)
 		v := items[len(items)-1]
 		c.st.setObj(ip.Obj, append(Tuple{}, items[:len(items)-1]...))
